@@ -12,6 +12,10 @@ commit and is shared with C02. This file adds the flagged family on top of it wi
   carry. Off = the candidate repair: such an item does not match.
 * `emptySelPanics` (C05 site) as written a partial filter with data and an empty list indexes `newData[0]`.
   Off = the candidate repair: the selector branch is skipped (`len(newData) > 0`).
+* `inplaceAltersFlag` (C04, clause 1b) as written the in-place paths of a remote write (`copyToSelectedData`,
+  `copyToAllData`, `RemoveElementFromItem` under `deleteFilteredData`) copy resp. clear the `writecheck` field like
+  any other. Off = the candidate repair `patches/C04-flag-altered-candidate.patch`: on a remote write the flag the
+  item had is put back.
 
 `updateListF_asWritten` proves that the member with all flags on IS `Spine.updateList`, so every theorem about
 `updateList` is a theorem about the member the driver runs against the unchanged tree.
@@ -22,6 +26,7 @@ structure UCfg where
   mergeStrict : Bool := true
   selNilPanics : Bool := true
   emptySelPanics : Bool := true
+  inplaceAltersFlag : Bool := true
 deriving Repr, DecidableEq, Inhabited
 
 def UCfg.asWritten : UCfg := {}
@@ -31,6 +36,19 @@ def selectorMatchF (c : UCfg) (sh : Shape) (sel it : Item) : Outcome Bool :=
   match selectorMatch sh sel it with
   | .panic s => if c.selNilPanics then .panic s else .ok false
   | .ok b => .ok b
+
+/-- put back the flag the item had (`restoreWriteCheck` of the candidate repair) -/
+def restoreFlag (sh : Shape) (saved x : Item) : Item :=
+  match sh.flag with
+  | none => x
+  | some f => x.set f (saved.get f)
+
+/-- shall this in-place write keep the flag the item had -/
+def keepsFlag (c : UCfg) (remote : Bool) : Bool := remote && !c.inplaceAltersFlag
+
+/-- `CopyNonNilDataFromItemToItem` as the in-place paths of the family use it -/
+def copyNonNilF (c : UCfg) (sh : Shape) (remote : Bool) (nw x : Item) : Item :=
+  if keepsFlag c remote then restoreFlag sh x (copyNonNil nw x) else copyNonNil nw x
 
 /-- is the stored item `a` addressed by (some item of) the incoming list -/
 def addressedBy (sh : Shape) (s2 : List Item) (a : Item) : Bool :=
@@ -60,10 +78,14 @@ def copyToSelectedF.go (c : UCfg) (sh : Shape) (remote : Bool) (sel nw : Item) :
         match copyToSelectedF.go c sh remote sel nw xs with
         | .ok (r, _) => .ok (x :: r, false)
         | .panic s => .panic s
-      else .ok (copyNonNil nw x :: xs, true)
+      else .ok (copyNonNilF c sh remote nw x :: xs, true)
 
 def copyToSelectedF (c : UCfg) (sh : Shape) (remote : Bool) (ex : List Item) (sel nw : Item) :
     Outcome (List Item × Bool) := copyToSelectedF.go c sh remote sel nw ex
+
+def copyToAllF (c : UCfg) (sh : Shape) (remote : Bool) (ex : List Item) (nw : Item) : List Item × Bool :=
+  (ex.map fun x => if !writeAllowed sh x && remote then x else copyNonNilF c sh remote nw x,
+   !(remote && ex.any fun x => !writeAllowed sh x))
 
 /-- does the delete filter hit the item (no selector: every item) -/
 def hitOf (c : UCfg) (sh : Shape) (f : Filter) (x : Item) : Outcome Bool :=
@@ -72,9 +94,10 @@ def hitOf (c : UCfg) (sh : Shape) (f : Filter) (x : Item) : Outcome Bool :=
   | none => .ok true
 
 /-- the item as the delete filter leaves it (elements removed from a hit item) -/
-def delItem (sh : Shape) (f : Filter) (hit : Bool) (x : Item) : Item :=
+def delItem (c : UCfg) (sh : Shape) (remote : Bool) (f : Filter) (hit : Bool) (x : Item) : Item :=
   match f.el with
-  | some el => if hit then removeElements sh el x else x
+  | some el =>
+    if hit then (if keepsFlag c remote then restoreFlag sh x (removeElements sh el x) else removeElements sh el x) else x
   | none => x
 
 /-- is the item kept in the result (a selector without elements deletes the hit items) -/
@@ -99,7 +122,7 @@ def deleteFilteredF.go (c : UCfg) (sh : Shape) (remote : Bool) (f : Filter) :
         match deleteFilteredF.go c sh remote f xs with
         | .panic s => .panic s
         | .ok (ip, out, ok) =>
-          .ok (delItem sh f hit x :: ip, if delKeep f hit then delItem sh f hit x :: out else out, ok)
+          .ok (delItem c sh remote f hit x :: ip, if delKeep f hit then delItem c sh remote f hit x :: out else out, ok)
 
 def deleteFilteredF (c : UCfg) (sh : Shape) (remote : Bool) (ex : List Item) (f : Filter) :
     Outcome (List Item × List Item × Bool) := deleteFilteredF.go c sh remote f ex
@@ -121,7 +144,7 @@ def tailF (c : UCfg) (sh : Shape) (remote : Bool) (orig cur : List Item) (aliase
   match nw with
   | n0 :: _ =>
     if !hasIdentifiers sh n0 then
-      let (r, ok1) := copyToAll sh remote cur n0
+      let (r, ok1) := copyToAllF c sh remote cur n0
       ⟨if aliased then r else orig, r, ok0 && ok1, !aliased⟩
     else
       let (r, ok1) := mergeF c sh remote cur nw
@@ -157,12 +180,23 @@ theorem selectorMatchF_asWritten (sh : Shape) (sel it : Item) :
   unfold selectorMatchF
   cases selectorMatch sh sel it <;> rfl
 
+theorem keepsFlag_asWritten (remote : Bool) : keepsFlag .asWritten remote = false := by
+  simp [keepsFlag, UCfg.asWritten]
+
+theorem copyNonNilF_asWritten (sh : Shape) (remote : Bool) (nw x : Item) :
+    copyNonNilF .asWritten sh remote nw x = copyNonNil nw x := by
+  simp [copyNonNilF, keepsFlag_asWritten]
+
+theorem copyToAllF_asWritten (sh : Shape) (remote : Bool) (ex : List Item) (nw : Item) :
+    copyToAllF .asWritten sh remote ex nw = copyToAll sh remote ex nw := by
+  simp [copyToAllF, copyToAll, copyNonNilF_asWritten]
+
 theorem copyToSelectedF_go_asWritten (sh : Shape) (remote : Bool) (sel nw : Item) (ex : List Item) :
     copyToSelectedF.go .asWritten sh remote sel nw ex = copyToSelected.go sh remote sel nw ex := by
   induction ex with
   | nil => rfl
   | cons x xs ih =>
-    simp only [copyToSelectedF.go, copyToSelected.go, selectorMatchF_asWritten, ih]
+    simp only [copyToSelectedF.go, copyToSelected.go, selectorMatchF_asWritten, copyNonNilF_asWritten, ih]
     cases selectorMatch sh sel x with
     | panic s => rfl
     | ok b =>
@@ -182,7 +216,8 @@ theorem deleteFilteredF_go_asWritten (sh : Shape) (remote : Bool) (f : Filter) (
   induction ex with
   | nil => rfl
   | cons x xs ih =>
-    simp only [deleteFilteredF.go, deleteFiltered.go, hitOf, delItem, delKeep, selectorMatchF_asWritten, ih]
+    simp only [deleteFilteredF.go, deleteFiltered.go, hitOf, delItem, delKeep, selectorMatchF_asWritten,
+      keepsFlag_asWritten, Bool.false_eq_true, if_false, ih]
     split
     · cases deleteFiltered.go sh remote f xs with
       | panic s => rfl
@@ -212,7 +247,7 @@ theorem updateListF_asWritten (sh : Shape) (remote : Bool) (ex nw : List Item) (
     updateListF .asWritten sh remote ex nw fp fd = updateList sh remote ex nw fp fd := by
   unfold updateListF updateList deletePhaseF partialPhaseF tailF
   simp only [deleteFilteredF, copyToSelectedF, deleteFilteredF_go_asWritten, copyToSelectedF_go_asWritten,
-    mergeF_asWritten, deleteFiltered, copyToSelected]
+    mergeF_asWritten, copyToAllF_asWritten, deleteFiltered, copyToSelected]
   have hc : UCfg.asWritten.emptySelPanics = true := rfl
   cases fd with
   | none =>
